@@ -17,7 +17,7 @@ def withArgs (a p l : String) (k : Str → List (Str × BoundValue) → List (Ch
   | _, _, _ => some "bad-arg"
 
 def run (stream : String) (a p l : String) : Option String :=
-  match stream with
+  match (if stream = "bind.stmt" then "parse.stmt" else stream) with
   | "parse.stmt" => withArgs a p l fun text params tbl =>
     match parseStatementText text params tbl with
     | .ok s => "ok " ++ sexpStatement s
